@@ -1,5 +1,175 @@
 package main
 
+import (
+	"bufio"
+	"fmt"
+	"os"
+	"os/exec"
+	"path/filepath"
+	"strings"
+	"syscall"
+	"time"
+
+	"verif/common"
+)
+
+// Child processes: anything that can take the process down by design or by hypothesis runs the emulator in a child
+// (the same binary with the "child" sub-command). The parent journals what it sends and keeps the child's stderr.
+
+var childModes = map[string]func(args []string){}
+
 func childMain(args []string) {
-	panic("child mode not built yet")
+	if len(args) == 0 {
+		fmt.Fprintln(os.Stderr, "child: mode missing")
+		os.Exit(3)
+	}
+	fn, ok := childModes[args[0]]
+	if !ok {
+		fmt.Fprintln(os.Stderr, "child: unknown mode", args[0])
+		os.Exit(3)
+	}
+	fn(args[1:])
+}
+
+type childProc struct {
+	cmd     *exec.Cmd
+	stdin   *bufio.Writer
+	stdout  *bufio.Reader
+	errPath string
+	done    chan error
+}
+
+// spawnChild starts `<self> child <mode> args...`; stderr goes to a file under .build (kept for replay files).
+func spawnChild(tag string, mode string, args ...string) (*childProc, error) {
+	self, err := os.Executable()
+	if err != nil {
+		return nil, err
+	}
+	dir := filepath.Join(common.Root(), ".build")
+	_ = os.MkdirAll(dir, 0o777)
+	errPath := filepath.Join(dir, fmt.Sprintf("child-%s-%d-%d.err", tag, os.Getpid(), time.Now().UnixNano()))
+	ef, err := os.Create(errPath)
+	if err != nil {
+		return nil, err
+	}
+	cmd := exec.Command(self, append([]string{"child", mode}, args...)...)
+	cmd.Stderr = ef
+	in, _ := cmd.StdinPipe()
+	out, _ := cmd.StdoutPipe()
+	cmd.SysProcAttr = &syscall.SysProcAttr{Pdeathsig: syscall.SIGKILL}
+	if err := cmd.Start(); err != nil {
+		ef.Close()
+		return nil, err
+	}
+	ef.Close()
+	c := &childProc{cmd: cmd, stdin: bufio.NewWriter(in), stdout: bufio.NewReader(out), errPath: errPath, done: make(chan error, 1)}
+	go func() { c.done <- cmd.Wait() }()
+	return c, nil
+}
+
+// readLine reads one line of the child's stdout with a watchdog.
+func (c *childProc) readLine(timeout time.Duration) (string, error) {
+	type res struct {
+		s   string
+		err error
+	}
+	ch := make(chan res, 1)
+	go func() {
+		s, err := c.stdout.ReadString('\n')
+		ch <- res{strings.TrimRight(s, "\n"), err}
+	}()
+	select {
+	case r := <-ch:
+		return r.s, r.err
+	case <-time.After(timeout):
+		return "", fmt.Errorf("child did not answer within %s", timeout)
+	}
+}
+
+func (c *childProc) send(line string) error {
+	if _, err := c.stdin.WriteString(line + "\n"); err != nil {
+		return err
+	}
+	return c.stdin.Flush()
+}
+
+// wait waits for exit (or kills after timeout); returns the exit error (nil = status 0).
+func (c *childProc) wait(timeout time.Duration) (error, bool) {
+	select {
+	case err := <-c.done:
+		return err, true
+	case <-time.After(timeout):
+		_ = c.cmd.Process.Signal(syscall.SIGQUIT)
+		select {
+		case err := <-c.done:
+			return err, false
+		case <-time.After(10 * time.Second):
+			_ = c.cmd.Process.Kill()
+			return <-c.done, false
+		}
+	}
+}
+
+func (c *childProc) kill() {
+	_ = c.cmd.Process.Kill()
+	select {
+	case <-c.done:
+	case <-time.After(10 * time.Second):
+	}
+}
+
+func (c *childProc) stderrTail(n int) string {
+	buf, _ := os.ReadFile(c.errPath)
+	s := string(buf)
+	lines := strings.Split(s, "\n")
+	var keep []string
+	for _, l := range lines {
+		if !strings.Contains(l, "bttest: GC MaxAge") {
+			keep = append(keep, l)
+		}
+	}
+	if len(keep) > n {
+		keep = keep[:n]
+	}
+	return strings.Join(keep, "\n")
+}
+
+func (c *childProc) cleanup() { _ = os.Remove(c.errPath) }
+
+// ---- canary for KF02 (btree iterator invalidated by a deletion while a GC pass has released the lock) --------
+
+func init() {
+	childModes["c16-btree-canary"] = func(args []string) {
+		// fixed reproducer: the raced passes of seed 1 on the btree engine with DeleteFromRow among the injected writes
+		for p := 1; p < 200; p += 4 {
+			res := c16RacePass(common.NewRand(1, "C16.race", p), "btree", true)
+			if res.bad != "" {
+				fmt.Fprintln(os.Stderr, "canary oracle:", res.bad)
+			}
+		}
+		fmt.Println("no panic in 50 passes")
+		os.Exit(0)
+	}
+}
+
+// c16BtreeCanary runs the reproducer in a child; returns (still fails, description).
+func c16BtreeCanary() (bool, string) {
+	c, err := spawnChild("kf02", "c16-btree-canary")
+	if err != nil {
+		return false, "cannot spawn canary child: " + err.Error()
+	}
+	defer c.cleanup()
+	werr, _ := c.wait(120 * time.Second)
+	tail := c.stderrTail(12)
+	if werr != nil && strings.Contains(tail, "panic:") {
+		first := tail
+		if i := strings.Index(tail, "panic:"); i >= 0 {
+			first = tail[i:]
+			if j := strings.Index(first, "\n"); j > 0 {
+				first = first[:j]
+			}
+		}
+		return true, "child emulator died: " + first
+	}
+	return false, fmt.Sprintf("child exit=%v", werr)
 }
